@@ -8,6 +8,7 @@ mod node;
 
 mod cluster;
 mod comp_pure;
+mod comp_sender;
 mod comp_store;
 mod evlog;
 mod model;
@@ -60,6 +61,7 @@ fn main() {
         match workload.as_str() {
             "cluster" => scen_cluster::run(&class, seed, &params).print(),
             "puppet" => scen_puppet::run(&class, seed, &params).print(),
+            "c14" => comp_sender::run(&class, seed, &params).print(),
             "c16" => comp_store::run(&class, seed, &params).print(),
             "c17" | "c18" | "c20" | "c09" | "c19" | "c04" => comp_pure::run(&workload, &class, seed, &params).print(),
             other => {
